@@ -281,3 +281,44 @@ func implMask(h netty.Handler) int {
 	}
 	return m
 }
+
+// Mixed-receiver probe types: some Handle* methods have value receivers, others pointer receivers, so the value form T
+// and the pointer form *T of one struct type implement different subsets of the six handler interfaces.
+type mixA struct{ b *base }
+
+func (p mixA) HandleRead(ctx netty.InboundContext, m netty.Message)    { p.b.read(ctx, m) }
+func (p *mixA) HandleWrite(ctx netty.OutboundContext, m netty.Message) { p.b.write(ctx, m) }
+func (p *mixA) HandleActive(ctx netty.ActiveContext)                   { p.b.active(ctx) }
+
+type mixB struct{ b *base }
+
+func (p mixB) HandleException(ctx netty.ExceptionContext, ex netty.Exception) { p.b.exception(ctx, ex) }
+func (p mixB) HandleEvent(ctx netty.EventContext, ev netty.Event)             { p.b.event(ctx, ev) }
+func (p *mixB) HandleRead(ctx netty.InboundContext, m netty.Message)          { p.b.read(ctx, m) }
+func (p *mixB) HandleInactive(ctx netty.InactiveContext, ex netty.Exception)  { p.b.inactive(ctx, ex) }
+
+type mixC struct{ b *base }
+
+func (p mixC) HandleWrite(ctx netty.OutboundContext, m netty.Message) { p.b.write(ctx, m) }
+func (p *mixC) HandleEvent(ctx netty.EventContext, ev netty.Event)    { p.b.event(ctx, ev) }
+func (p *mixC) HandleActive(ctx netty.ActiveContext)                  { p.b.active(ctx) }
+func (p *mixC) HandleException(ctx netty.ExceptionContext, ex netty.Exception) {
+	p.b.exception(ctx, ex)
+}
+
+// mkMixed builds form k (1..6: A value, A pointer, B value, B pointer, C value, C pointer).
+func mkMixed(k int, b *base) netty.Handler {
+	switch k {
+	case 1:
+		return mixA{b}
+	case 2:
+		return &mixA{b}
+	case 3:
+		return mixB{b}
+	case 4:
+		return &mixB{b}
+	case 5:
+		return mixC{b}
+	}
+	return &mixC{b}
+}
